@@ -80,3 +80,18 @@ def rule_arm_payload(ctx, f, rid):
         else:
             ctx.ob(rid, "encode_impl|arm-" + name, got == [want], "the %s arm must read exactly the %s payload (found %s)" % (name, want, got), site=b.span_of_block(tgt))
     return b
+
+
+def impl_param(f, kind):
+    """1-based position of the `metric_families` ("families") or the writer ("writer") parameter of TextEncoder::encode_impl, found by TYPE: the function may or
+    may not take `&self`, and the writer may be `&mut dyn WriteUtf8` or a generic `&mut W`."""
+    b = f.body(T + "TextEncoder::encode_impl")
+    if b is None:
+        return None
+    for i in range(1, b.argc + 1):
+        ty = b.local_ty(i)
+        if kind == "families" and "MetricFamily]" in ty:
+            return i
+        if kind == "writer" and ty.startswith("&mut ") and "MetricFamily" not in ty and "TextEncoder" not in ty:
+            return i
+    return None
